@@ -82,6 +82,9 @@ def comp_block(c):
         s.append("    axis " + vec(p["axis"]))
     if comp == "distanceInv":
         s.append("    exponent %d" % p["n"])
+    if p.get("period"):
+        s.append("    period " + g17(p["period"]))
+        s.append("    wrapAround " + g17(p.get("wrap", 0.0)))
     if comp == "cartesian":
         for k, a in zip("XYZ", p["use"]):
             s.append("    use%s %s" % (k, "on" if a else "off"))
@@ -170,6 +173,9 @@ def pos_line(atoms):
 def model_tokens(c):
     comp = c["comp"]; p = c.get("params", {})
     cell = c.get("cell")
+    if p.get("period"):
+        c2 = dict(c); c2["params"] = {k: v for k, v in p.items() if k not in ("period", "wrap")}
+        return ["W", hx(p["period"]), hx(p.get("wrap", 0.0))] + model_tokens(c2)
     t = [comp, "%d" % c.get("pbc", 1), "1" if cell else "0"] + [hx(x) for x in (cell or [0.0, 0.0, 0.0])]
     ngroups = len(c["groups"])
     if comp in ("distanceZ", "distanceXY"):
